@@ -1,7 +1,12 @@
 #!/usr/bin/env python3
 """Confirm seeded changes and archive them under /verif/seeded/<ID>-<x>/.
 
-For each /tmp/seed/<ID>/<x>/ (patch.diff, demo_test.go, meta.json written by an independent
+Usage: confirm_seeds.py [--src DIR] [--wave2] [--no-check] [--tier quick|thorough] [names...]
+  --src DIR   where the sub-agents wrote (default /tmp/seed; wave 2: /tmp/seed2)
+  --wave2     archive a/b as <ID>-c/<ID>-d (second, independent wave of sub-agents)
+  --no-check  only steps 1-3 (scratch worktree), do not touch /repo
+
+For each <src>/<ID>/<x>/ (patch.diff, demo_test.go, meta.json written by an independent
 sub-agent from the property text only):
   1. apply the patch (or its port in /verif/seeded/<ID>-<x>/patch.diff when the original no
      longer applies because of later fix: commits) in a scratch worktree of /repo HEAD;
@@ -21,14 +26,29 @@ def sh(cmd, cwd=None, timeout=1800):
     return p.returncode, p.stdout + p.stderr
 
 def main():
-    only = sys.argv[1:]
+    args = sys.argv[1:]
+    src, wave2, nocheck, tier = '/tmp/seed', False, False, 'quick'
+    only = []
+    while args:
+        a = args.pop(0)
+        if a == '--src': src = args.pop(0)
+        elif a == '--wave2': wave2 = True
+        elif a == '--no-check': nocheck = True
+        elif a == '--tier': tier = args.pop(0)
+        else: only.append(a)
+    respath = '/verif/seeded/RESULTS.json'
+    prev = {}
+    if os.path.exists(respath):
+        for r in json.load(open(respath)):
+            prev[r['seed']] = r
     sh(f'git -C /repo worktree remove --force {WT}')
     shutil.rmtree(WT, ignore_errors=True)
     rc, out = sh(f'git -C /repo worktree add --detach {WT} HEAD')
     assert rc == 0, out
-    results = []
-    for d in sorted(glob.glob('/tmp/seed/C*/[ab]')):
+    for d in sorted(glob.glob(src + '/C*/[ab]')):
         pid, x = d.split('/')[-2], d.split('/')[-1]
+        if wave2:
+            x = {'a': 'c', 'b': 'd'}[x]
         name = f'{pid}-{x}'
         if only and name not in only and pid not in only:
             continue
@@ -43,8 +63,7 @@ def main():
             if os.path.exists(f'{dst}/patch.diff') and sh(f'git apply --check {dst}/patch.diff', cwd=WT)[0] == 0:
                 patch, ported = f'{dst}/patch.diff', True
             else:
-                results.append((name, 'PATCH-DOES-NOT-APPLY (needs a port)'))
-                print(results[-1]); continue
+                print(name, 'PATCH-DOES-NOT-APPLY (needs a port)'); continue
         rec = {'property': pid, 'summary': meta.get('summary'), 'needs': meta.get('needs'), 'ported_to_fixed_tree': ported,
                'source': 'independent sub-agent given only the property text and a scratch worktree'}
         sh(f'git apply {patch}', cwd=WT)
@@ -61,22 +80,34 @@ def main():
             rec['demo_without_change_output'] = o2[-600:]
         os.remove(f'{WT}/{demo_dest}')
         # my check
-        rc3, o3 = sh(f'/verif/tools/try_patch.sh {patch} {pid}', cwd='/verif', timeout=3600)
-        lines = [l for l in o3.splitlines() if l.startswith(('VIOLATION', 'violation', 'HARNESS', 'done', 'PATCH'))]
-        rec['check_cmd'] = f'./check {pid} quick (with the patch applied to /repo, then reverted)'
-        rec['detected_by_quick'] = any(l.startswith('VIOLATION') for l in lines)
-        rec['check_output'] = lines[:4]
+        if nocheck:
+            lines = []
+            rec['detected_by_' + tier] = None
+        else:
+            rc3, o3 = sh(f'/verif/tools/try_patch.sh {patch} {pid} {tier}', cwd='/verif', timeout=4*3600)
+            lines = [l for l in o3.splitlines() if l.startswith(('VIOLATION', 'violation', 'HARNESS', 'done', 'PATCH'))]
+            rec['check_cmd'] = f'./check {pid} {tier} (with the patch applied to /repo, then reverted)'
+            rec['detected_by_' + tier] = any(l.startswith('VIOLATION') for l in lines)
+            rec['check_output'] = lines[:4]
         if not ported:
             shutil.copy(patch, f'{dst}/patch.diff')
         shutil.copy(f'{d}/demo_test.go', f'{dst}/demo_test.go')
         rec['demo_dest'], rec['demo_cmd'] = demo_dest, demo_cmd
         json.dump(rec, open(f'{dst}/meta.json', 'w'), indent=1)
-        status = 'DETECTED' if rec['detected_by_quick'] else 'MISSED'
+        status = 'NOT-RUN' if nocheck else ('DETECTED' if rec['detected_by_' + tier] else 'MISSED')
         ok = rec['builds_and_existing_tests_pass'] and rec['demo_fails_with_change'] and rec['demo_passes_without_change']
-        results.append((name, status, 'confirmed' if ok else f"UNCONFIRMED build={rec['builds_and_existing_tests_pass']} fail_with={rec['demo_fails_with_change']} pass_without={rec['demo_passes_without_change']}", 'ported' if ported else ''))
-        print(results[-1], flush=True)
+        r = prev.get(name, {'seed': name, 'property': pid})
+        r['confirmed'], r['ported'] = ok, ported
+        if not nocheck:
+            r['detected_by_' + tier] = rec['detected_by_' + tier]
+            fc = [l for l in lines if l.startswith('violation')]
+            r['first_class' if tier == 'quick' else 'first_class_' + tier] = fc[0][:240] if fc else ''
+        prev[name] = r
+        if not ok:
+            print('UNCONFIRMED', name, rec, flush=True)
+        print(prev[name], flush=True)
     sh(f'git -C /repo worktree remove --force {WT}')
     shutil.rmtree(WT, ignore_errors=True)
-    json.dump(results, open('/verif/seeded/RESULTS.json', 'w'), indent=1)
+    json.dump([prev[k] for k in sorted(prev)], open(respath, 'w'), indent=1)
 
 main()
